@@ -19,7 +19,7 @@ TIMEOUTS = [20, 1, 0.5, 2.5]
 BUFS = [1, 100, 1000000]
 TRANSPORTS = [None, ['polling'], ['websocket'], ['polling', 'websocket']]
 COOKIES = ['none', 'name', 'dict_str', 'dict_true', 'dict_false', 'dict_callable', 'dict_noname']
-OUTCOMES = ['None', 'True', 'False', '0', 'empty', 'text', 'dict', 'list', 'raise']
+OUTCOMES = ['None', 'True', 'False', '0', 'empty', 'text', 'dict', 'list', 'raise', 'send_accept', 'send_reject']
 
 
 def cookie_cfg(kind):
@@ -58,7 +58,18 @@ def cookie_ref(kind, sid):
         return ['io=%s; path=/y' % sid]
 
 
+class SendingConnect(base.Behaviour):
+    """The connect handler sends to the new session before giving its verdict."""
+    def __init__(self, accept):
+        self.accept = accept
+
+    def connect(self, sid, environ):
+        return [('send', sid, 'greeting-1'), ('send', sid, 'greeting-2'), ('return', None if self.accept else False)]
+
+
 def outcome_effects(o):
+    if o in ('send_accept', 'send_reject'):
+        return None
     return {'None': [], 'True': [('return', True)], 'False': [('return', False)],
             '0': [('return', 0)], 'empty': [('return', '')], 'text': [('return', 'no')],
             'dict': [('return', {'a': 1})], 'list': [('return', [1])],
@@ -67,7 +78,7 @@ def outcome_effects(o):
 
 def outcome_ref(o):
     """(accepted, body-json-or-None-for-default)."""
-    if o in ('None', 'True'):
+    if o in ('None', 'True', 'send_accept'):
         return True, None
     return False, {'text': 'no', 'dict': {'a': 1}, 'list': [1]}.get(o)
 
@@ -133,7 +144,10 @@ def run_cell(impl, via, cell, out):
         return 'skipped'
     if via == 'websocket' and not cell['ws_avail']:
         return 'skipped'       # opening over WebSocket without a driver is outside the alphabet (DESIGN S4)
-    beh = base.Scripted(connect=outcome_effects(cell['outcome']))
+    if cell['outcome'] in ('send_accept', 'send_reject'):
+        beh = SendingConnect(cell['outcome'] == 'send_accept')
+    else:
+        beh = base.Scripted(connect=outcome_effects(cell['outcome']))
     w = peer.make_world(impl, server_kwargs=kw, behaviour=beh)
     try:
         if not cell['ws_avail']:
@@ -193,6 +207,14 @@ def run_cell(impl, via, cell, out):
                 return 'bad'
             if d.get('sid') != hsid:
                 V('sid_mismatch', 'open', 'OPEN sid %r, handler got %r' % (d.get('sid'), hsid))
+            if cell['outcome'] == 'send_accept':
+                if via == 'polling':
+                    rest = text.split('\x1e')[1:]
+                else:
+                    w.run()
+                    rest = [f[2] for f in s.frames[1:]]
+                if rest[:2] != ['4greeting-1', '4greeting-2']:
+                    V('packets_sent_by_connect_handler', 'outcome=send_accept', 'after OPEN the client got %r, want the two greetings in order' % (rest[:3],))
             if d.get('pingInterval') != want_pi:
                 V('ping_interval_wrong', 'interval=%r' % (cell['interval'],),
                   'pingInterval %r, configured %r (+grace) = %r ms' % (d.get('pingInterval'), cell['interval'], want_pi))
